@@ -7,9 +7,9 @@ use proptest::prelude::*;
 use rusl::string::unix_str::{UnixStr, UnixString};
 use serde::{Deserialize, Serialize};
 
-use vh::runner::{CaseReport, CaseResult, Ctx};
-use vh::util::{all_strings, escape, with_nul, BStr, Guarded};
-use vh::ensure;
+use crate::runner::{CaseReport, CaseResult, Ctx};
+use crate::util::{all_strings, escape, with_nul, BStr, Guarded};
+use crate::ensure;
 
 #[derive(Debug, Clone, Serialize, Deserialize)]
 pub struct Pair {
@@ -158,32 +158,32 @@ pub fn check_pair(bufs: &mut Bufs, h: &[u8], n: &[u8]) -> CaseResult {
 
     // find
     let exp = ref_find(h, n);
-    let got = vh::runner::no_panic("UnixStr::find", || hs.find(ns))?;
+    let got = crate::runner::no_panic("UnixStr::find", || hs.find(ns))?;
     ensure!(got == exp, format!("UnixStr::find|wrong-index|{}", shape_find(h, n, got, exp)), "find({:?},{:?}) = {:?}, expected {:?}", escape(h), escape(n), got, exp);
-    let got = vh::runner::no_panic("UnixStr::find_buf", || hs.find_buf(nbuf))?;
+    let got = crate::runner::no_panic("UnixStr::find_buf", || hs.find_buf(nbuf))?;
     ensure!(got == exp, format!("UnixStr::find_buf|wrong-index|{}", shape_find(h, n, got, exp)), "find_buf({:?},{:?}) = {:?}, expected {:?}", escape(h), escape(n), got, exp);
 
     // common prefix
     let exp_p = ref_common_prefix(h, n);
-    let got = vh::runner::no_panic("UnixStr::match_up_to", || hs.match_up_to(ns))?;
+    let got = crate::runner::no_panic("UnixStr::match_up_to", || hs.match_up_to(ns))?;
     ensure!(got == exp_p, "UnixStr::match_up_to|wrong-length", "match_up_to({:?},{:?}) = {}, expected {}", escape(h), escape(n), got, exp_p);
     if let Ok(nstr) = core::str::from_utf8(nbuf) {
-        let got = vh::runner::no_panic("UnixStr::match_up_to_str", || hs.match_up_to_str(nstr))?;
+        let got = crate::runner::no_panic("UnixStr::match_up_to_str", || hs.match_up_to_str(nstr))?;
         ensure!(got == exp_p, "UnixStr::match_up_to_str|wrong-length", "match_up_to_str({:?},{:?}) = {}, expected {}", escape(h), escape(n), got, exp_p);
     }
 
     // suffix
     let exp_e = h.ends_with(n);
-    let got = vh::runner::no_panic("UnixStr::ends_with", || hs.ends_with(ns))?;
+    let got = crate::runner::no_panic("UnixStr::ends_with", || hs.ends_with(ns))?;
     ensure!(got == exp_e, "UnixStr::ends_with|wrong-answer", "ends_with({:?},{:?}) = {}, expected {}", escape(h), escape(n), got, exp_e);
 
     // join (both orders are covered because the enumeration contains both orders)
     let exp_j = ref_join(h, n);
-    let got: UnixString = vh::runner::no_panic("UnixStr::path_join", || hs.path_join(ns))?;
+    let got: UnixString = crate::runner::no_panic("UnixStr::path_join", || hs.path_join(ns))?;
     let gs = got.as_slice();
     ensure!(!gs.is_empty() && gs[..gs.len() - 1] == exp_j[..], "UnixStr::path_join|wrong-bytes", "path_join({:?},{:?}) = {:?}, expected {:?}+NUL", escape(h), escape(n), escape(gs), escape(&exp_j));
     if let Ok(nstr) = core::str::from_utf8(nbuf) {
-        let got: UnixString = vh::runner::no_panic("UnixStr::path_join_fmt", || hs.path_join_fmt(format_args!("{nstr}")))?;
+        let got: UnixString = crate::runner::no_panic("UnixStr::path_join_fmt", || hs.path_join_fmt(format_args!("{nstr}")))?;
         let gs = got.as_slice();
         ensure!(!gs.is_empty() && gs[..gs.len() - 1] == exp_j[..], "UnixStr::path_join_fmt|wrong-bytes", "path_join_fmt({:?},{:?}) = {:?}, expected {:?}+NUL", escape(h), escape(n), escape(gs), escape(&exp_j));
     }
@@ -225,7 +225,7 @@ pub fn check_path(bufs: &mut Bufs, p: &[u8]) -> CaseResult {
     let ps = ustr(&bufs.h);
 
     let acc = ref_parent(p);
-    let got = vh::runner::no_panic("UnixStr::parent_path", || ps.parent_path())?;
+    let got = crate::runner::no_panic("UnixStr::parent_path", || ps.parent_path())?;
     // contents = up to the first NUL or the whole buffer (termination itself is C10's business)
     let got_c: Option<Vec<u8>> = got.as_ref().map(|g| {
         let s = g.as_slice();
@@ -247,7 +247,7 @@ pub fn check_path(bufs: &mut Bufs, p: &[u8]) -> CaseResult {
     ensure!(acc.iter().any(matches), "UnixStr::parent_path|wrong-answer", "parent_path({:?}) = {:?}, acceptable {:?}", escape(p), got_c.as_ref().map(|g| escape(g)), acc.iter().map(|a| a.as_ref().map(|x| escape(x))).collect::<Vec<_>>());
 
     let acc_f = ref_file_name(p);
-    let got = vh::runner::no_panic("UnixStr::path_file_name", || ps.path_file_name().map(|u| u.as_slice().to_vec()))?;
+    let got = crate::runner::no_panic("UnixStr::path_file_name", || ps.path_file_name().map(|u| u.as_slice().to_vec()))?;
     let got_c = got.map(|mut g| {
         if g.last() == Some(&0) {
             g.pop();
@@ -280,7 +280,7 @@ fn pair_rand() -> impl Strategy<Value = Pair> {
                 0 => {}
                 1 => {
                     // plant in the middle
-                    let at = vh::runner::pick_idx(pos, h.len() + 1);
+                    let at = crate::runner::pick_idx(pos, h.len() + 1);
                     let tail = h.split_off(at);
                     h.extend_from_slice(&n);
                     h.extend_from_slice(&tail);
